@@ -55,6 +55,8 @@ struct Inner {
 pub struct Recorder {
     inner: Mutex<Inner>,
     start: Instant,
+    /// known findings of the property under check (violations they cover are not announced as VIOLATION)
+    known: Mutex<Option<(String, Known)>>,
 }
 
 impl Default for Recorder {
@@ -62,6 +64,7 @@ impl Default for Recorder {
         Recorder {
             inner: Mutex::new(Inner::default()),
             start: Instant::now(),
+            known: Mutex::new(None),
         }
     }
 }
@@ -69,6 +72,9 @@ impl Default for Recorder {
 const MAX_SAMPLES: usize = 8;
 
 impl Recorder {
+    pub fn set_known(&self, prop: &str, known: &Known) {
+        *self.known.lock().unwrap() = Some((prop.to_string(), known.clone()));
+    }
     pub fn set_rule(&self, rule: &str) {
         self.inner.lock().unwrap().rule = rule.to_string();
     }
@@ -150,6 +156,16 @@ impl Recorder {
             "case": case,
         });
         let _ = std::fs::write(&path, serde_json::to_vec_pretty(&doc).unwrap_or_default());
+        // announce at once (the run may still die later, e.g. killed for memory under a broken library)
+        let covered = self.known.lock().unwrap().as_ref().map_or(false, |(p, k)| k.covering(p, &fail.sig).is_some());
+        if !covered {
+            use std::io::Write;
+            let mut o = std::io::stdout().lock();
+            let _ = writeln!(o, "VIOLATION property={prop} replay={}", path.display());
+            let _ = writeln!(o, "  sub-check: {sub}  signature: {}", fail.sig);
+            let _ = writeln!(o, "  {}", fail.msg.replace('\n', "\n  "));
+            let _ = o.flush();
+        }
         g.violations.push(Violation {
             sub: sub.to_string(),
             sig: fail.sig.clone(),
@@ -234,11 +250,7 @@ impl Recorder {
         for (sig, (n, what)) in &g.known_hits {
             println!("KNOWN-FINDING: property={prop} {what} [signature {sig}; {n} distinct failing case(s) this run]");
         }
-        for v in &new_v {
-            println!("VIOLATION property={prop} replay={}", v.replay.display());
-            println!("  sub-check: {}  signature: {}", v.sub, v.sig);
-            println!("  {}", v.msg.replace('\n', "\n  "));
-        }
+        // (VIOLATION lines were printed when the violations were recorded)
         println!(
             "{prop} {}: evaluations={} distinct_nontrivial={} violations={} known_hits={} wall={:.1}s",
             tier.name(),
